@@ -146,6 +146,17 @@ def acc (ws : List String) : String :=
         let d := MsgView.setFromMessage Packet.new p
         dumpPacket d ++ " | " ++ dumpPacket d
       | _ => "panic"
+  | "copyinto" :: cl :: pre :: spec =>
+      match buildCleared cl spec with
+      | .ok p =>
+        let prel : List (Nat × Bytes) := if pre == "_" then [] else
+          (pre.splitOn ",").filterMap (fun kv => match kv.splitOn ":" with
+            | [n, v] => some (nat! n, parseVal v)
+            | _ => none)
+        let t0 : Packet := prel.foldl (fun (m : Packet) (kv : Nat × Bytes) => m.addOption (optNum (toString kv.1)) kv.2) Packet.new
+        let d := MsgView.setFromMessage { t0 with payload := [9, 9, 9] } p
+        dumpPacket d ++ " | " ++ dumpPacket d
+      | _ => "panic"
   | "wadd" :: cl :: adds :: code :: pay :: spec =>
       match buildCleared cl spec with
       | .ok p =>
